@@ -270,6 +270,16 @@ class Calls(object):
         (a,) = self._args(ev, node, st)
         return SV(ev.truthy(a), TBool())
 
+    def spec_isinstance_(self, ev, node, st):
+        """isinstance_(x, 'Cls') : the same symbolic predicate the code translation of isinstance(x, Cls) uses"""
+        a = ev.ev(node.args[0], st)
+        cls = node.args[1].value
+        if isinstance(a.t, TOpt):
+            f = self.cx.func("isinstance_" + cls.replace(".", "_"), a.t.inner.sort(self.cx), B)
+            return SV(z3.And(z3.Not(a.t.is_none(self.cx, a.e)), f(a.t.get(self.cx, a.e))), TBool())
+        f = self.cx.func("isinstance_" + cls.replace(".", "_"), a.t.sort(self.cx), B)
+        return SV(f(a.e), TBool())
+
     def spec_b2i(self, ev, node, st):
         (a,) = self._args(ev, node, st)
         return SV(z3.If(ev.truthy(a), 1, 0), TInt())
@@ -293,8 +303,18 @@ class Calls(object):
         nm = node.args[0].value
         rt = self.fx.parse_type(node.args[1].value)
         args = [ev.ev(a, st) for a in node.args[2:]]
-        f = self.cx.func("uf_" + nm, *([a.t.sort(self.cx) for a in args] + [rt.sort(self.cx)]))
+        key = "uf_" + nm
+        sig = tuple(str(a.t.sort(self.cx)) for a in args) + (str(rt.sort(self.cx)),)
+        known = self.cx._cache.setdefault(("ufsig", nm), sig)
+        if known != sig:
+            key = "uf_" + nm + "__" + "_".join(sig)
+        f = self.cx.func(key, *([a.t.sort(self.cx) for a in args] + [rt.sort(self.cx)]))
         return SV(f(*[a.e for a in args]), rt)
+
+    def spec_obj(self, ev, node, st):
+        """obj(x): x seen as an opaque object (the cast the code translation applies when a value flows into an Obj parameter)"""
+        (a,) = self._args(ev, node, st)
+        return ev.coerce(a, TObj(), "obj()")
 
     def spec_len(self, ev, node, st):
         return self.bi_len(ev, node, st)
@@ -361,6 +381,22 @@ class Calls(object):
         if isinstance(a.t, TInt) and isinstance(b.t, TInt):
             return SV(z3.If(a.e <= b.e, a.e, b.e), TInt())
         raise Outside("min")
+
+    def bi_next(self, ev, node, st):
+        """next(iterable, default) over a finite sequence value: its first element, or the default"""
+        if len(node.args) != 2:
+            raise Outside("next() without default")
+        seq = ev.ev(node.args[0], st)
+        d = ev.ev(node.args[1], st)
+        if not isinstance(seq.t, TSeq):
+            raise Outside("next over %s" % seq.t)
+        o = seq.t.ops(self.cx)
+        first = SV(o["nth"](seq.e, 0), seq.t.elem)
+        if isinstance(d.t, TNone):
+            ot = TOpt(seq.t.elem)
+            return SV(z3.If(o["len"](seq.e) > 0, ot.some(self.cx, first.e), ot.none(self.cx)), ot)
+        d = ev.coerce(d, seq.t.elem)
+        return SV(z3.If(o["len"](seq.e) > 0, first.e, d.e), seq.t.elem)
 
     def bi_isinstance(self, ev, node, st):
         a = ev.ev(node.args[0], st)
@@ -561,6 +597,10 @@ class Calls(object):
                 st.assume((r > 0) == self.fx.lib.str_contains(recv.e, args[0].e))
             if name in ("startswith", "endswith") and len(args) == 1:
                 st.assume(z3.Implies(r, self.fx.lib.str_contains(recv.e, args[0].e)))
+                st.assume(z3.Implies(r, cx.strlen(recv.e) >= cx.strlen(args[0].e)))
+                self.fx.lib.strip_prefix_axioms()
+            if name == "strip" and len(args) == 0:
+                self.fx.lib.strip_prefix_axioms()
             return SV(r, rt)
         raise Outside("str method %s" % name)
 
